@@ -85,14 +85,14 @@ def build(reg):
     ]))
     ident_viol = "not (result.isidentifier() and not iskeyword(result))"
     reg.add(StrContract(U + "PythonIdentifier.__new__", [
-        Triple("ident", {"value": ALL, "prefix": S.SAFE_PREFIX, "skip_snake_case": False}, S.IDENT, prop=["C09", "C01"],
+        Triple("ident", {"value": ALL, "prefix": S.SAFE_PREFIX, "skip_snake_case": False}, S.IDENT, prop=["C09", "C01", "C05"],
                native_violates=ident_viol),
-        Triple("ident-raw", {"value": ALL, "prefix": S.SAFE_PREFIX, "skip_snake_case": True}, S.IDENT, prop=["C09", "C01"],
+        Triple("ident-raw", {"value": ALL, "prefix": S.SAFE_PREFIX, "skip_snake_case": True}, S.IDENT, prop=["C09", "C01", "C05"],
                native_violates=ident_viol),
         Triple("ident[K1]", {"value": S.NO_K1, "prefix": S.SAFE_PREFIX, "skip_snake_case": False}, S.IDENT,
-               restricts="ident", known=["C09-K1-word-not-xid"], prop=["C09", "C01"], native_violates=ident_viol),
+               restricts="ident", known=["C09-K1-word-not-xid"], prop=["C09", "C01", "C05"], native_violates=ident_viol),
         Triple("ident-raw[K1,K2]", {"value": S.NO_K1_NO_RAWDELIM, "prefix": S.SAFE_PREFIX, "skip_snake_case": True}, S.IDENT,
-               restricts="ident-raw", known=["C09-K1-word-not-xid", "C09-K2-raw-name-delimiter"], prop=["C09", "C01"],
+               restricts="ident-raw", known=["C09-K1-word-not-xid", "C09-K2-raw-name-delimiter"], prop=["C09", "C01", "C05"],
                native_violates=ident_viol),
         Triple("path-component", {"value": ALL, "prefix": S.SAFE_PREFIX, "skip_snake_case": False}, S.PATH_COMPONENT,
                prop=["C19"], native_violates="result in ('', '.', '..') or any(c in result for c in '/\\\\\\x00')"),
@@ -102,9 +102,9 @@ def build(reg):
                native_violates="not result.startswith(kwargs['prefix'])"),
     ]))
     reg.add(StrContract(U + "ClassName.__new__", [
-        Triple("ident", {"value": ALL, "prefix": S.SAFE_PREFIX}, S.IDENT, prop=["C09", "C01"], native_violates=ident_viol),
+        Triple("ident", {"value": ALL, "prefix": S.SAFE_PREFIX}, S.IDENT, prop=["C09", "C01", "C05"], native_violates=ident_viol),
         Triple("ident[K1]", {"value": S.NO_K1, "prefix": S.SAFE_PREFIX}, S.IDENT, restricts="ident",
-               known=["C09-K1-word-not-xid"], prop=["C09", "C01"], native_violates=ident_viol),
+               known=["C09-K1-word-not-xid"], prop=["C09", "C01", "C05"], native_violates=ident_viol),
         Triple("path-component", {"value": ALL, "prefix": S.SAFE_PREFIX}, S.PATH_COMPONENT, prop=["C19"],
                native_violates="result in ('', '.', '..') or any(c in result for c in '/\\\\\\x00')"),
     ]))
